@@ -63,7 +63,9 @@ def main():
         "not_applicable": na,
         "notes": "Every check: regenerates Gen/*.v from /repo, rebuilds the Coq closure of the property (full .vo), "
                  "collects Print Assumptions, extracts the model, and runs model and implementation on the same inputs. "
-                 "known_findings.json lists recorded defects.",
+                 "For C02, C08 and C20 the pure integer / byte-string functions of the GeoNetworking and BTP code are in addition "
+                 "translated from the Python source to Gallina on every run (tools/pyz.py, Gen/SrcGeonet.v) and proved equal to "
+                 "the model for all arguments (DESIGN.md 9.7). known_findings/Cxx.json list recorded and fixed defects.",
     }
     with open(os.path.join(VERIF, "MANIFEST.json"), "w") as f:
         json.dump(man, f, indent=1)
